@@ -47,6 +47,19 @@ CLAIMS = {
           "Does NOT decide byte-for-byte immutability over histories as values."),
     note="Trusted: O_APPEND never overwrites; exclusive lock file = one packer.",
     technique="kind-resolved ownership scan + per-iteration typestate on ICFGs + structural checks of the selector", ref="5/C13"),
+ 'C07': dict(
+    text=("Decides API-contract shape clauses of the stream classes: (R1) in PackedObjectReader.seek, for each whence value, lower and upper bounds are checked on the variable that determines the new handle position after its last assignment and before the handle moves; "
+          "(R2) the value returned is that normalised absolute target (whence=1 via tell(), whence=2 via the length) / the decompresser returns its position; (R3) every read of the pack handle is bounded by length-position and the position is refreshed after every move; "
+          "(R4) invalid whence rejected first; (R5) decompresser: negative target rejected before any state change, forward loop stops on empty read, proxy switch one-way, after open_stream()+seek(pos), tested first by read/tell/seek; (R6) rewind resets every state attribute __init__ initialises. "
+          "Does NOT decide equality with io.BytesIO for all programs/contents (values)."),
+    note="The loose stream is a regular Python file object (trusted).",
+    technique="per-whence typestate on the method CFG + def-use / sibling-agreement checks over the stream classes", ref="5/C07"),
+ 'C08': dict(
+    text=("Decides freshness clauses with a typestate on the cached operation session (possibly pinned at entry / none / fresh): (R1) the read funnel answers MISSING only after loose probe -> session refresh -> query on the new session, both stream modes; "
+          "(R2) list_all_objects scans the index on a session created since entry whose first statement follows the loose listing; (R3) every public pure view of Container with its own index query is either analysed the same way or is a tabled statistic (count_objects, get_total_size, validate); "
+          "(R4) clean_storage decides on a reloaded session. Does NOT decide histories as such."),
+    note="Trusted: SQLite WAL snapshot starts at the session's first statement; a new session sees all earlier commits; sequential histories.",
+    technique="session-freshness typestate on ICFGs (with emptiness facts for the retry set)", ref="5/C08"),
 }
 
 PENDING_REASON = "check not built yet in this session (work in progress; DESIGN.md section 5 describes the planned static rules)"
